@@ -7,6 +7,7 @@ import hashlib
 import hmac as std_hmac
 import os
 import sys
+import time
 
 sys.path.insert(0, os.path.join(os.path.dirname(os.path.abspath(__file__)), ".."))
 
@@ -65,10 +66,23 @@ def pbkdf2(alg, pw, salt, rounds, keylen):
     return hashlib.pbkdf2_hmac(alg, pw, salt, rounds, keylen)
 
 
+class TGroup(Group):
+    """Group whose reported seconds are its own build time (common.Group measures until the final dump)"""
+
+    def done(self):
+        self.elapsed = round(time.time() - self.t0, 2)
+        return self
+
+    def out(self):
+        d = super().out()
+        d["seconds"] = getattr(self, "elapsed", d["seconds"])
+        return d
+
+
 class Fmt:
     """one format: how to configure passlib, how to compute the reference string"""
 
-    def __init__(self, name, ref, salts=None, costs=None, using=None, ctxs=None, pw="bytes", lengths=None, osc=None, max_len=None, pool=None, handler=None):
+    def __init__(self, name, ref, salts=None, costs=None, using=None, ctxs=None, pw="bytes", lengths=None, osc=None, max_len=None, pool=None, handler=None, hash_cost=None, hash_ok=None, tag=None, extra=None):
         self.name = name
         self.ref = ref  # ref(pw, salt, cost, ctx) -> str
         self.salts = salts  # callable(rng, tier) -> list, or None
@@ -81,6 +95,13 @@ class Fmt:
         self.max_len = max_len
         self.pool = pool
         self.handler = handler or name
+        # hash_cost: the cost passlib is specified to record when asked for `cost` (bsdi_crypt: even rounds are
+        # bumped to the next odd value, upstream's documented weak-key avoidance); verify still uses `cost`
+        self.hash_cost = hash_cost
+        # hash_ok(salt, cost): False when the configuration cannot be requested through using() (verify only)
+        self.hash_ok = hash_ok
+        self.tag = tag or (lambda salt, cost: "")  # key suffix naming a witness class
+        self.extra = extra or []  # explicit (length, salt, cost) cases always evaluated
 
 
 def plan(fmt, tier, rng):
@@ -93,7 +114,7 @@ def plan(fmt, tier, rng):
         lengths = [n for n in lengths if n <= fmt.max_len]
     salts = fmt.salts(rng, tier) if fmt.salts else [None]
     costs = fmt.costs(tier) if fmt.costs else [None]
-    variants = [0] if tier == "quick" else [0, 1, 2]
+    variants = [0, 1, 2] if tier == "quick" else [0, 1, 2, 0, 1, 2]
     out = []
     idx = 0
 
@@ -106,8 +127,7 @@ def plan(fmt, tier, rng):
 
     for n in lengths:
         for v in variants:
-            vv = (v + idx) % 3 if tier == "quick" else v
-            out.append((mkpw(n, vv), salts[idx % len(salts)], costs[idx % len(costs)], fmt.ctxs[idx % len(fmt.ctxs)]))
+            out.append((mkpw(n, v), salts[idx % len(salts)], costs[idx % len(costs)], fmt.ctxs[idx % len(fmt.ctxs)]))
             idx += 1
     base = [n for n in (9, 17, 8) if n in lengths or fmt.max_len is None or n <= fmt.max_len][:1] or [lengths[-1]]
     n0 = base[0]
@@ -120,6 +140,8 @@ def plan(fmt, tier, rng):
     for c in fmt.ctxs:
         out.append((mkpw(n0, 0), salts[idx % len(salts)], costs[idx % len(costs)], c))
         idx += 1
+    for n, s, c in fmt.extra:
+        out.append((mkpw(n, 0), s, c, fmt.ctxs[0]))
     if fmt.pw == "bytes" and 255 in lengths:
         out.append((bytes(range(1, 256)), salts[0], costs[0], fmt.ctxs[0]))
     return out
@@ -158,29 +180,30 @@ SHA_ROUNDS_T = list(range(1000, 1127)) + [2048, 4096, 4999, 5000, 5001, 8192]
 def formats():
     F = []
     # ---- DES family ------------------------------------------------------------------------
-    all2 = lambda rng, tier: [a + b for a in ("./", "09", "AZ", "az", "zz", "..") for b in (".", "z")] + [rstr(rng, 2) for _ in range(8 if tier == "quick" else 64)]  # noqa: E731
+    all2 = lambda rng, tier: ["..", "./", "/.", "zz", "z.", ".z", "09", "AZ", "az"] + [rstr(rng, 2) for _ in range(8 if tier == "quick" else 64)]  # noqa: E731
     F.append(Fmt("des_crypt", lambda pw, s, c, x: rd.des_crypt(pw, s), salts=all2, osc=lambda s, c: s))
     F.append(Fmt("bsdi_crypt", lambda pw, s, c, x: rd.bsdi_crypt(pw, s, c), salts=lambda rng, tier: ["....", "zzzz", "/...", "./..", "../.", ".../"] + [rstr(rng, 4) for _ in range(8 if tier == "quick" else 48)],
                  costs=lambda tier: [1, 2, 3, 4, 5, 7, 8, 15, 16, 17, 25, 26, 63, 64, 65, 127] + ([] if tier == "quick" else [255, 256, 725, 1001, 4097]),
-                 osc=lambda s, c: "_" + rd.h64_le_str(c, 4) + s))
+                 osc=lambda s, c: "_" + rd.h64_le_str(c, 4) + s, hash_cost=lambda c: c | 1))
     F.append(Fmt("bigcrypt", lambda pw, s, c, x: rd.bigcrypt(pw, s), salts=all2, lengths=[0, 1, 7, 8, 9, 15, 16, 17, 55, 56, 63, 64, 65, 72, 73, 127, 128]))
     F.append(Fmt("crypt16", lambda pw, s, c, x: rd.crypt16(pw, s), salts=all2, lengths=[0, 1, 7, 8, 9, 15, 16, 17, 55, 64]))
     # ---- md5 / sha crypt ----------------------------------------------------------------------
     F.append(Fmt("md5_crypt", lambda pw, s, c, x: rc.md5_crypt(pw, s), salts=sizes_str(0, 8), osc=lambda s, c: "$1$" + s + "$"))
     F.append(Fmt("apr_md5_crypt", lambda pw, s, c, x: rc.apr_md5_crypt(pw, s), salts=sizes_str(0, 8)))
     F.append(Fmt("sha256_crypt", lambda pw, s, c, x: rc.sha256_crypt(pw, s, c), salts=sizes_str(0, 16), costs=lambda tier: SHA_ROUNDS_Q if tier == "quick" else SHA_ROUNDS_T,
-                 osc=lambda s, c: "$5$rounds=%d$%s$" % (c, s)))
+                 osc=lambda s, c: "$5$%s%s$" % ("" if c == 5000 else "rounds=%d$" % c, s)))
     F.append(Fmt("sha512_crypt", lambda pw, s, c, x: rc.sha512_crypt(pw, s, c), salts=sizes_str(0, 16), costs=lambda tier: SHA_ROUNDS_Q if tier == "quick" else SHA_ROUNDS_T,
-                 osc=lambda s, c: "$6$rounds=%d$%s$" % (c, s)))
+                 osc=lambda s, c: "$6$%s%s$" % ("" if c == 5000 else "rounds=%d$" % c, s)))
     F.append(Fmt("sha1_crypt", lambda pw, s, c, x: rc.sha1_crypt(pw, s, c), salts=sizes_str(0, 64), costs=lambda tier: [1, 2, 3, 4, 41, 42, 43, 1000, 1024],
                  osc=lambda s, c: ("$sha1$%d$%s$" % (c, s)) if s else None))
     F.append(Fmt("phpass", lambda pw, s, c, x: rc.phpass(pw, s, c[0], c[1]), salts=sizes_str(8, 8, extra=(8, 8, 8)), costs=lambda tier: [(7, "$P$"), (8, "$P$"), (7, "$H$"), (9, "$H$"), (10, "$P$")] + ([] if tier == "quick" else [(11, "$P$"), (13, "$H$")]),
                  using=lambda s, c: {"salt": s, "rounds": c[0], "ident": c[1]}))
     F.append(Fmt("sun_md5_crypt", lambda pw, s, c, x: rc.sun_md5_crypt(pw, s, c[0], c[1]), salts=sizes_str(0, 16, extra=(32,)),
                  costs=lambda tier: [(0, False), (0, True), (1, False), (2, True), (42, False), (1000, True)] + ([] if tier == "quick" else [(41, True), (43, False), (4096, False), (65536, False)]),
-                 using=lambda s, c: {"salt": s, "rounds": c[0], "bare_salt": c[1]},
+                 using=lambda s, c: {"salt": s, "rounds": c[0]}, hash_ok=lambda s, c: not c[1],  # bare_salt cannot be requested via using()
                  osc=lambda s, c: ("$md5$" if c[0] == 0 else "$md5,rounds=%d$" % c[0]) + s + ("" if c[1] else "$"),
-                 lengths=[0, 1, 8, 15, 16, 17, 55, 56, 64, 65, 128, 256]))
+                 lengths=[0, 1, 8, 15, 16, 17, 55, 56, 64, 65, 128, 256],
+                 tag=lambda s, c: ":empty-bare-salt" if s == "" and c[1] else "", extra=[(9, "", (0, True)), (9, "", (2, True)), (9, "", (0, False)), (9, "a", (0, True))]))
     # ---- pbkdf2 family ------------------------------------------------------------------------
     pb_costs = lambda tier: [1, 2, 3, 4, 41, 42, 43, 1000, 1024] + ([] if tier == "quick" else [6400, 29000])  # noqa: E731
     for alg in ("sha1", "sha256", "sha512"):
@@ -213,7 +236,7 @@ def formats():
         F.append(Fmt("ldap_salted_" + alg, lambda pw, s, c, x, alg=alg: rmisc.ldap_salted(alg, pw, s), salts=sizes_bytes(list(range(4, 17)))))
     # ---- windows -----------------------------------------------------------------------------
     F.append(Fmt("nthash", lambda pw, s, c, x: rm4.nthash(pw), pw="text"))
-    F.append(Fmt("bsd_nthash", lambda pw, s, c, x: "$3$$" + rm4.nthash(pw), pw="text"))
+    F.append(Fmt("bsd_nthash", lambda pw, s, c, x: "$3$$" + rm4.nthash(pw), pw="text"))  # libxcrypt widens bytes instead of decoding UTF-8: not used as an oracle
     users = [{"user": u} for u in ("Administrator", "a", "\u00c9ric", "USER.name", "")]
     F.append(Fmt("msdcc", lambda pw, s, c, x: rm4.msdcc(pw, x["user"]), pw="text", ctxs=users))
     F.append(Fmt("msdcc2", lambda pw, s, c, x: rm4.msdcc2(pw, x["user"]), pw="text", ctxs=users, lengths=[0, 1, 8, 13, 14, 15, 27, 28, 64, 128]))
@@ -252,7 +275,7 @@ def run_format(fmt, tier, rng, groups, skipped, crypt_ok):
     except Exception as err:  # noqa: BLE001
         skipped.append(f"{fmt.name}: handler not loadable: {type(err).__name__}: {err}")
         return
-    g = Group("ref:" + fmt.name, fmt.name, "password lengths %s%s x salts (every size) x costs; hash(pw)==reference and verify(pw, reference)" % (fmt.lengths or LENGTHS, "" if tier == "quick" or fmt.lengths else "+4096"))
+    g = TGroup("ref:" + fmt.name, fmt.name, "password lengths %s%s x salts (every size) x costs; hash(pw)==reference and verify(pw, reference)" % (fmt.lengths or LENGTHS, "" if tier == "quick" or fmt.lengths else "+4096"))
     use_os = fmt.osc is not None and crypt_ok.get(fmt.name)
     for pw, salt, cost, ctx in plan(fmt, tier, rng):
         pwb = as_bytes(pw)
@@ -262,13 +285,17 @@ def run_format(fmt, tier, rng, groups, skipped, crypt_ok):
             raise RuntimeError(f"reference for {fmt.name} crashed: {err!r} on {wit(fmt, pw, salt, cost, ctx)}") from err
         kw = fmt.using(salt, cost)
         g.case((fmt.name, pwb, repr(salt), repr(cost), repr(sorted(ctx.items()))))
-        o = outcome(lambda: (h.using(**kw) if kw else h).hash(pw, **ctx))
-        if o[0] != "ok":
-            g.fail(f"hash-exc:{fmt.name}:{o[1]}", "hash() raised on an admissible input", wit(fmt, pw, salt, cost, ctx, outcome=list(o)))
-        else:
-            g.check(o[1] == want, f"hash:{fmt.name}", "hash differs from the independent implementation of the specification", wit(fmt, pw, salt, cost, ctx, got=o[1], want=want))
+        want_hash = want
+        if fmt.hash_cost and fmt.hash_cost(cost) != cost:
+            want_hash = fmt.ref(pw if fmt.pw == "text" else pwb, salt, fmt.hash_cost(cost), ctx)
+        if fmt.hash_ok is None or fmt.hash_ok(salt, cost):
+            o = outcome(lambda: (h.using(**kw) if kw else h).hash(pw, **ctx))
+            if o[0] != "ok":
+                g.fail(f"hash-exc:{fmt.name}:{o[1]}", "hash() raised on an admissible input", wit(fmt, pw, salt, cost, ctx, outcome=list(o)))
+            else:
+                g.check(o[1] == want_hash, f"hash:{fmt.name}", "hash differs from the independent implementation of the specification", wit(fmt, pw, salt, cost, ctx, got=o[1], want=want_hash))
         o = outcome(h.verify, pw, want, **ctx)
-        g.check(o == ("ok", True), f"verify:{fmt.name}", "string produced by the independent implementation does not verify", wit(fmt, pw, salt, cost, ctx, string=want, outcome=list(o)))
+        g.check(o == ("ok", True), f"verify:{fmt.name}{fmt.tag(salt, cost)}", "string produced by the independent implementation does not verify", wit(fmt, pw, salt, cost, ctx, string=want, outcome=list(o)))
         if use_os:
             setting = fmt.osc(salt, cost)
             if setting is None or b"\0" in pwb:
@@ -278,8 +305,8 @@ def run_format(fmt, tier, rng, groups, skipped, crypt_ok):
                 continue
             g.check(os_hash == want, f"oscrypt-vs-ref:{fmt.name}", "crypt(3) and the reference disagree (harness oracle conflict)", wit(fmt, pw, salt, cost, ctx, os=os_hash, ref=want))
             o = outcome(h.verify, pw, os_hash, **ctx)
-            g.check(o == ("ok", True), f"verify-oscrypt:{fmt.name}", "string produced by crypt(3) does not verify", wit(fmt, pw, salt, cost, ctx, string=os_hash, outcome=list(o)))
-    groups.append(g)
+            g.check(o == ("ok", True), f"verify-oscrypt:{fmt.name}{fmt.tag(salt, cost)}", "string produced by crypt(3) does not verify", wit(fmt, pw, salt, cost, ctx, string=os_hash, outcome=list(o)))
+    groups.append(g.done())
 
 
 # ---------------------------------------------------------------------------------------------
@@ -316,7 +343,7 @@ def bcrypt_groups(tier, rng, groups, skipped, crypt_ok):
                 res.append((r, "crypt(3)"))
         return res
 
-    g = Group("ref:bcrypt", "bcrypt", "idents 2a/2b/2y x cost 4..6 x password lengths %s x random salts; bcrypt package (<=72 bytes) and crypt(3)" % LENGTHS)
+    g = TGroup("ref:bcrypt", "bcrypt", "idents 2a/2b/2y x cost 4..6 x password lengths %s x random salts; bcrypt package (<=72 bytes) and crypt(3)" % LENGTHS)
     lengths = LENGTHS + ([] if tier == "quick" else list(range(66, 80)) + [4096])
     idx = 0
     for n in lengths:
@@ -341,10 +368,10 @@ def bcrypt_groups(tier, rng, groups, skipped, crypt_ok):
                     g.check(o[1] == want, "hash:bcrypt" + (":over72" if n > 72 else ""), "hash differs from %s" % refs[0][1], dict(w, got=o[1], want=want))
                 o = outcome(H.bcrypt.verify, pw, want)
                 g.check(o == ("ok", True), "verify:bcrypt" + (":over72" if n > 72 else ""), "oracle string does not verify", dict(w, string=want, outcome=list(o)))
-    groups.append(g)
+    groups.append(g.done())
 
     # bcrypt_sha256 (passlib's own published construction, docs/lib/passlib.hash.bcrypt_sha256.rst)
-    g = Group("ref:bcrypt_sha256", "bcrypt_sha256", "v=2 (HMAC-SHA256 keyed by the salt string) and v=1 (plain SHA256) x cost 4..5 x password lengths; inner bcrypt by the bcrypt package / crypt(3)")
+    g = TGroup("ref:bcrypt_sha256", "bcrypt_sha256", "v=2 (HMAC-SHA256 keyed by the salt string) and v=1 (plain SHA256) x cost 4..5 x password lengths; inner bcrypt by the bcrypt package / crypt(3)")
     for n in LENGTHS + ([] if tier == "quick" else [4096]):
         for version in (2, 1):
             pw = pw_bytes(rng, n, idx % 3)
@@ -370,10 +397,10 @@ def bcrypt_groups(tier, rng, groups, skipped, crypt_ok):
                 g.check(o[1] == want, f"hash:bcrypt_sha256:v{version}", "hash differs from the documented construction", dict(w, got=o[1], want=want))
             o = outcome(H.bcrypt_sha256.verify, pw, want)
             g.check(o == ("ok", True), f"verify:bcrypt_sha256:v{version}", "reference string does not verify", dict(w, string=want, outcome=list(o)))
-    groups.append(g)
+    groups.append(g.done())
 
     # ldap_bcrypt / django_bcrypt prefix wrappers
-    g = Group("ref:bcrypt-wrappers", "ldap_bcrypt", "{CRYPT} and bcrypt$ prefixes around bcrypt: lengths x cost 4")
+    g = TGroup("ref:bcrypt-wrappers", "ldap_bcrypt", "{CRYPT} and bcrypt$ prefixes around bcrypt: lengths x cost 4")
     for n in (0, 1, 8, 55, 56, 72):
         pw = pw_bytes(rng, n, n % 3)
         salt = bcrypt_salt(rng)
@@ -388,7 +415,7 @@ def bcrypt_groups(tier, rng, groups, skipped, crypt_ok):
             g.check(o == ("ok", want), f"hash:{name}", "wrapped bcrypt differs", dict(w, outcome=list(o), want=want))
             o = outcome(getattr(H, name).verify, pw, want)
             g.check(o == ("ok", True), f"verify:{name}", "wrapped oracle string does not verify", dict(w, string=want, outcome=list(o)))
-    groups.append(g)
+    groups.append(g.done())
 
 
 def scrypt_group(tier, rng, groups, skipped):
@@ -398,7 +425,7 @@ def scrypt_group(tier, rng, groups, skipped):
         skipped.append("scrypt: hashlib.scrypt missing on this host")
         return
     b64 = lambda d: base64.b64encode(d).decode().rstrip("=")  # noqa: E731
-    g = Group("ref:scrypt", "scrypt", "$scrypt$ format: ln 1..6 x r {1,2,8} x p {1,2,3} x salt sizes 0..17,32,64,1024 x password lengths; hashlib.scrypt as oracle; default backend and builtin backend")
+    g = TGroup("ref:scrypt", "scrypt", "$scrypt$ format: ln 1..6 x r {1,2,8} x p {1,2,3} x salt sizes 0..17,32,64,1024 x password lengths; hashlib.scrypt as oracle; default backend and builtin backend")
     import passlib.crypto.scrypt as ps
 
     backends = [None]
@@ -437,7 +464,7 @@ def scrypt_group(tier, rng, groups, skipped):
                 ps._set_backend(orig)
             except Exception:  # noqa: BLE001
                 pass
-    groups.append(g)
+    groups.append(g.done())
 
 
 def django_group(tier, rng, groups, skipped):
@@ -458,7 +485,7 @@ def django_group(tier, rng, groups, skipped):
     except Exception as err:  # noqa: BLE001
         skipped.append(f"django oracle unavailable: {type(err).__name__}: {err}")
         return
-    g = Group("django-oracle", "django_pbkdf2_sha256", "Django's own hashers (pbkdf2_sha256, pbkdf2_sha1, md5, bcrypt, bcrypt_sha256): encode() vs passlib hash, and each side verifies the other's string")
+    g = TGroup("django-oracle", "django_pbkdf2_sha256", "Django's own hashers (pbkdf2_sha256, pbkdf2_sha1, md5, bcrypt, bcrypt_sha256): encode() vs passlib hash, and each side verifies the other's string")
     table = [
         ("django_pbkdf2_sha256", "PBKDF2PasswordHasher", "pbkdf2"),
         ("django_pbkdf2_sha1", "PBKDF2SHA1PasswordHasher", "pbkdf2"),
@@ -509,13 +536,13 @@ def django_group(tier, rng, groups, skipped):
             if o[0] == "ok" and isinstance(pw, str):
                 o2 = outcome(dj.verify, pw, ph.using(**kw).hash(pw))
                 g.check(o2 == ("ok", True), f"django-accepts:{name}", "string made by passlib does not verify under Django", dict(w, outcome=list(o2)))
-    groups.append(g)
+    groups.append(g.done())
 
 
 def ldap_crypt_group(tier, rng, groups, skipped, crypt_ok):
     from passlib import hash as H
 
-    g = Group("ref:ldap-crypt-wrappers", "ldap_md5_crypt", "{CRYPT} prefix around des/bsdi/md5/sha1/sha256/sha512 crypt: password lengths 0,1,8,9,64,129 x one salt/cost each")
+    g = TGroup("ref:ldap-crypt-wrappers", "ldap_md5_crypt", "{CRYPT} prefix around des/bsdi/md5/sha1/sha256/sha512 crypt: password lengths 0,1,8,9,64,129 x one salt/cost each")
     table = [
         ("ldap_des_crypt", lambda pw, rng: ({"salt": "ab"}, rd.des_crypt(pw, "ab"))),
         ("ldap_bsdi_crypt", lambda pw, rng: ({"salt": "abcd", "rounds": 5}, rd.bsdi_crypt(pw, "abcd", 5))),
@@ -540,7 +567,113 @@ def ldap_crypt_group(tier, rng, groups, skipped, crypt_ok):
             g.check(o == ("ok", want), f"hash:{name}", "wrapped hash differs from {CRYPT}+reference", dict(w, outcome=list(o), want=want))
             o = outcome(h.verify, pw, want)
             g.check(o == ("ok", True), f"verify:{name}", "{CRYPT}+reference does not verify", dict(w, string=want, outcome=list(o)))
-    groups.append(g)
+    groups.append(g.done())
+
+
+def libpass_group(tier, rng, groups, skipped, crypt_ok):
+    """the fork's new-style hashers (libpass.hashers): same formats, separate code"""
+    try:
+        from libpass.hashers.sha_crypt import SHA256Hasher, SHA512Hasher
+    except Exception as err:  # noqa: BLE001
+        skipped.append(f"libpass.hashers: not importable ({type(err).__name__}: {err})")
+        return
+    g = TGroup("ref:libpass-sha-crypt", "libpass.hashers.sha_crypt", "SHA256Hasher/SHA512Hasher: rounds 1000..1042(+1083..1085,2048,5000) x salt sizes 0..16 x password lengths; vs SHA-crypt.txt reference and crypt(3)")
+    rounds_list = SHA_ROUNDS_Q if tier == "quick" else SHA_ROUNDS_T
+    idx = 0
+    for cls, ref, osname in ((SHA256Hasher, rc.sha256_crypt, "sha256_crypt"), (SHA512Hasher, rc.sha512_crypt, "sha512_crypt")):
+        cases = [(LENGTHS[i % len(LENGTHS)], r) for i, r in enumerate(rounds_list)] + [(n, rounds_list[i % len(rounds_list)]) for i, n in enumerate(LENGTHS + ([] if tier == "quick" else [4096]))]
+        for n, rounds in cases:
+            pw = pw_bytes(rng, n, idx % 3)
+            salt = rstr(rng, idx % 17)
+            idx += 1
+            want = ref(pw, salt, rounds)
+            alt = ref(pw, salt, rounds, explicit=True)
+            name = cls.__name__
+            g.case((name, pw, salt, rounds))
+            w = {"hasher": "libpass.hashers.sha_crypt." + name, "rounds": rounds, "secret": {"bytes_hex": pw.hex()}, "salt": salt}
+            o = outcome(lambda: cls(rounds=rounds).hash(pw, salt=salt))
+            if o[0] != "ok":
+                g.fail(f"hash-exc:libpass.{name}:{o[1]}", "hash() raised", dict(w, outcome=list(o)))
+            else:
+                g.check(o[1] in (want, alt), f"hash:libpass.{name}", "hash differs from the SHA-crypt reference", dict(w, got=o[1], want=want))
+            for string in {want, alt}:
+                o = outcome(cls(rounds=rounds).verify, string, pw)
+                g.check(o == ("ok", True), f"verify:libpass.{name}" + ("" if salt else ":empty-salt"), "reference string does not verify", dict(w, string=string, outcome=list(o)))
+            if crypt_ok.get(osname) and idx % 4 == 0:
+                os_hash = oscrypt.crypt(pw, want[: want.rindex("$") + 1])
+                if os_hash:
+                    o = outcome(cls(rounds=rounds).verify, os_hash, pw)
+                    g.check(o == ("ok", True), f"verify-oscrypt:libpass.{name}" + ("" if salt else ":empty-salt"), "crypt(3) string does not verify", dict(w, string=os_hash, outcome=list(o)))
+    groups.append(g.done())
+
+    try:
+        from libpass.hashers.pbkdf2 import PBKDF2SHA256Handler, PBKDF2SHA512Handler
+    except Exception as err:  # noqa: BLE001
+        skipped.append(f"libpass.hashers.pbkdf2: not importable ({type(err).__name__}: {err})")
+    else:
+        g = TGroup("ref:libpass-pbkdf2", "libpass.hashers.pbkdf2", "PBKDF2SHA256Handler/PBKDF2SHA512Handler: rounds {1,2,3,42,1000} x salt sizes 0..17,32,64,1024 x password lengths; vs RFC 2898 reference")
+        sizes = list(range(0, 18)) + [32, 64, 1024]
+        for cls, alg in ((PBKDF2SHA256Handler, "sha256"), (PBKDF2SHA512Handler, "sha512")):
+            name = cls.__name__
+            cases = [(LENGTHS[i % len(LENGTHS)], sz) for i, sz in enumerate(sizes)] + [(n, sizes[(i * 5 + 1) % len(sizes)]) for i, n in enumerate(LENGTHS)]
+            for n, sz in cases:
+                pw = pw_bytes(rng, n, idx % 3)
+                salt = rbytes(rng, sz)
+                rounds = (1, 2, 3, 42, 1000)[idx % 5]
+                idx += 1
+                want = rp.pbkdf2_digest(alg, pw, salt, rounds)
+                g.case((name, pw, salt, rounds))
+                w = {"hasher": "libpass.hashers.pbkdf2." + name, "rounds": rounds, "secret": {"bytes_hex": pw.hex()}, "salt": {"bytes_hex": salt.hex()}}
+                tag = ":empty-salt" if sz == 0 else ""
+                if sz:  # salt=b"" means "generate one" in this API
+                    o = outcome(lambda: cls(rounds=rounds).hash(pw, salt=salt))
+                    g.check(o == ("ok", want), f"hash:libpass.{name}", "hash differs from the PBKDF2 reference", dict(w, outcome=list(o), want=want))
+                o = outcome(cls(rounds=rounds).verify, want, pw)
+                g.check(o == ("ok", True), f"verify:libpass.{name}{tag}", "reference string does not verify", dict(w, string=want, outcome=list(o)))
+        groups.append(g.done())
+
+    try:
+        from libpass.hashers.bcrypt import BcryptHasher, BcryptSHA256Hasher
+    except Exception as err:  # noqa: BLE001
+        skipped.append(f"libpass.hashers.bcrypt: not importable ({type(err).__name__}: {err})")
+        return
+    if not crypt_ok.get("bcrypt"):
+        skipped.append("libpass.hashers.bcrypt: it is a thin wrapper over the bcrypt package; the only independent oracle is crypt(3), which lacks bcrypt here")
+        return
+    g = TGroup("ref:libpass-bcrypt", "libpass.hashers.bcrypt", "BcryptHasher (2a/2b) and BcryptSHA256Hasher x cost 4..5 x password lengths <= 72 (any length for bcrypt-sha256); crypt(3) as oracle")
+    for n in [x for x in LENGTHS if x <= 72]:
+        for prefix in ("2a", "2b"):
+            pw = pw_bytes(rng, n, idx % 3)
+            idx += 1
+            cost = 4 + idx % 2
+            s22 = bcrypt_salt(rng)
+            cfg = "$%s$%02d$%s" % (prefix, cost, s22)
+            want = oscrypt.crypt(pw, cfg)
+            if not want:
+                continue
+            g.case(("BcryptHasher", pw, cfg))
+            w = {"hasher": "libpass.hashers.bcrypt.BcryptHasher", "secret": {"bytes_hex": pw.hex()}, "salt": cfg}
+            o = outcome(lambda: BcryptHasher(rounds=cost, prefix=prefix).hash(pw, salt=cfg.encode()))
+            g.check(o == ("ok", want), "hash:libpass.BcryptHasher", "hash differs from crypt(3)", dict(w, outcome=list(o), want=want))
+            o = outcome(BcryptHasher(rounds=cost, prefix=prefix).verify, want, pw)
+            g.check(o == ("ok", True), "verify:libpass.BcryptHasher", "crypt(3) string does not verify", dict(w, string=want, outcome=list(o)))
+    for n in LENGTHS:
+        pw = pw_bytes(rng, n, idx % 3)
+        idx += 1
+        cost = 4 + idx % 2
+        s22 = bcrypt_salt(rng)
+        key = base64.b64encode(std_hmac.new(s22.encode(), pw, hashlib.sha256).digest())
+        inner = oscrypt.crypt(key, "$2b$%02d$%s" % (cost, s22))
+        if not inner:
+            continue
+        want = "$bcrypt-sha256$v=2,t=2b,r=%d$%s$%s" % (cost, s22, inner[-31:])
+        g.case(("BcryptSHA256Hasher", pw, s22, cost))
+        w = {"hasher": "libpass.hashers.bcrypt.BcryptSHA256Hasher", "secret": {"bytes_hex": pw.hex()}, "salt": s22, "rounds": cost}
+        o = outcome(lambda: BcryptSHA256Hasher(rounds=cost).hash(pw, salt=("$2b$%02d$%s" % (cost, s22)).encode()))
+        g.check(o == ("ok", want), "hash:libpass.BcryptSHA256Hasher", "hash differs from the documented construction", dict(w, outcome=list(o), want=want))
+        o = outcome(BcryptSHA256Hasher(rounds=cost).verify, want, pw)
+        g.check(o == ("ok", True), "verify:libpass.BcryptSHA256Hasher", "reference string does not verify", dict(w, string=want, outcome=list(o)))
+    groups.append(g.done())
 
 
 def build(tier, rng):
@@ -561,6 +694,7 @@ def build(tier, rng):
     scrypt_group(tier, rng, groups, skipped)
     django_group(tier, rng, groups, skipped)
     ldap_crypt_group(tier, rng, groups, skipped, crypt_ok)
+    libpass_group(tier, rng, groups, skipped, crypt_ok)
     covered |= {"bcrypt", "bcrypt_sha256", "ldap_bcrypt", "django_bcrypt", "django_bcrypt_sha256", "scrypt", "ldap_des_crypt", "ldap_bsdi_crypt", "ldap_md5_crypt", "ldap_sha1_crypt", "ldap_sha256_crypt", "ldap_sha512_crypt"}
     from passlib import registry
 
